@@ -11,7 +11,7 @@ from harness import fakeproc
 PROP = "C07"
 LEAN_MODULE = "Ztr.Props.C07"
 THEOREMS = [
-    "Ztr.Channel.C07_roundtrip", "Ztr.Channel.C07_truncation", "Ztr.Channel.C07_spawn_failure",
+    "Ztr.Channel.C07_roundtrip", "Ztr.Channel.C07_truncation_partial", "Ztr.Channel.C07_spawn_failure",
     "Ztr.Channel.C07_noise_after", "Ztr.Channel.C07_no_report", "Ztr.Channel.C07_spoof_witness", "Ztr.Channel.splitLines_joinLines",
     "Ztr.Channel.parseNat_renderNat",
 ]
@@ -130,6 +130,9 @@ def expected(pre, report, post, cut, spawn_error):
     if spawn_error:
         return ("commError",)
     if cut is not None:
+        # the only cut report that may be used is the complete names-free report without its final newline
+        if not fails and not errs and not post and cut == len(real_child_report(ran, fails, errs)) - 1:
+            return ("ok", ran, [], [])
         return ("commError",)
     return ("ok", ran, [squash(n) for n in fails], [squash(n) for n in errs])
 
